@@ -47,6 +47,10 @@ CHECKS = {
          "encoding and the pendulum environment model are validated against the real code on a boundary grid each run. Numeric<->temporal "
          "conversions and text parse-back (C / Rust parsers) are choice-symbolic over boundary pick-lists, cold and cache-warmed.",
          "4/C04", "AST-to-z3 translation of the real isoformat (unsat = holds on the whole domain), solver diff, CrossHair choice exploration, native replay"),
+ "C20": ("E3 choice-symbolic: derivations of an annotation-expression grammar are selected by choice variables which the solver enumerates "
+         "exhaustively (lazy forking); future.transform runs natively on the rendered string; the oracle is the harness's own AST evaluator "
+         "(| read as Union, builtin generics identified with their typing spellings, non-annotation nodes opaque), plus no-BitOr, fixpoint and "
+         "unchanged-AST checks.", "4/C20", "CrossHair/z3 exhaustive enumeration of grammar derivations (choice variables), reference-evaluator oracle, native replay"),
 }
 NA = {
  "C17": "flat catalogue of CPython type objects compared with CPython's own issubclass/typing internals: neither side can be encoded for a solver and there is no value, shape, state or history to make symbolic (DESIGN.md section 7)",
